@@ -858,6 +858,10 @@ def no_result_dropped(chk, prog, rule, prefixes):
             callee = strip_generics(obj.resolved or obj.callee or "?") if k == "call" else "value"
             if (root_fn(b.path), callee) in DROPPED_RESULT_OK:
                 continue
+            if k == "call" and obj.is_call_to("std::io::Write::write_fmt", "std::io::Write::write_all", "std::io::Write::flush") and obj.args \
+                    and obj.args[0].place is not None and any(
+                        w in b.locals[obj.args[0].place.local]["ty"] for w in ("Stdout", "Stderr")):
+                continue        # `let _ = writeln!(io::stdout(), ..)`: a message that could not be printed
             chk.fail(rule, short_fn(b.path), "result-dropped:%s" % callee.split("::")[-1],
                      "the result of %s (%s) is dropped without being looked at: a failure of that step goes unnoticed and "
                      "the enclosing operation reports success" % (callee, ty[:80]), site_of(obj.sp))
